@@ -138,6 +138,37 @@ def monitor(sc, obs):
     return out
 
 
+FACTORY_SRC = r"""
+import deal, random
+__name__ = "c10_factory_probe"
+def probe(seed):
+    # functions (and explicit validators) made by one factory share a code object and differ in their default values: the params of a
+    # violation error are the values of the failing call -- the defaults of THAT function
+    rnd = random.Random(seed)
+    bad = []
+    for _ in range(20):
+        limits = rnd.sample(range(1, 60), 3)
+        def make(limit, short):
+            if short:
+                @deal.pre(lambda _: _.x < _.limit)
+                def check(x, limit=limit): return x
+            else:
+                @deal.pre(lambda x, limit=limit: x < limit)
+                def check(x, limit=limit): return x
+            return check
+        short = rnd.random() < .5
+        fs = [(l, make(l, short)) for l in limits]
+        for l, f in fs:
+            for x in (l - 1, l, l + 100):
+                try: f(x); got = "ok"
+                except deal.PreContractError as e: got = dict(e.params)
+                except BaseException as e: got = "exc:" + type(e).__name__
+                want = "ok" if x < l else {"x": x, "limit": l}
+                if got != want: bad.append([short, limits, l, x, got if isinstance(got, str) else sorted(got.items()), want if isinstance(want, str) else sorted(want.items())])
+    return bad
+"""
+
+
 def make(rnd, k): raise NotImplementedError
 
 
@@ -153,6 +184,14 @@ def run(ctx, fr, model_available=True):
     for s in scs: s.setdefault('meta', {'kind': 'corpus', 'msg': None, 'exc': None, 'outcome': 'false', 'shape': 0, 'form': 'explicit'})
     base_scn.run(_me, ctx, fr, model_available, scs=[s for s in scs if s['meta']['kind'] != 'corpus'])
     fr.exhaustive = True
+    from ..harness import impl
+    r = impl.run_impl('pyexec.py', {'src': FACTORY_SRC, 'calls': [['probe', [ctx.seed]]]})[0]
+    fr.evaluations += 40; fr.add_nontrivial({'factory_probe': ctx.seed})
+    fr.samples.append({'family': 'functions and validators made by a factory', 'deviations': r})
+    if isinstance(r, dict): fr.errors.append('C10 factory probe failed: ' + str(r)[:400])
+    elif r:
+        fr.violations.append({'scenario': {'family': 'factory', 'seed': ctx.seed}, 'impl': r[:4], 'signature': None,
+                              'what': f'the params of a violation error are not the arguments of the failing call (passed or default values): {r[0]}'})
 def search(ctx, fr, model_available=True):
     class C2: tier = 'thorough'; seed = ctx.seed
     scs = cells('thorough', ctx.seed)
